@@ -27,7 +27,7 @@ RULE = ('part 1: cases = complete answer sequences of a scripted detector (all o
 ASSUMPTIONS = ['detector contract: None or an index in [0, len-2]; t2 >= detector minimum (curvature/DFDT/Menger/Kneedle 2, L-method 3)',
                'gate: endpoint-line SMAPE within 1e-9 of t1 (but not equal) is ambiguous',
                'self-similarity is differential (the wrapper on the two slices), no hand-written expectation']
-BOUNDS = {'quick': {'scripted': 'all answer sequences for n<=9, t2 in 0..4, 3 gate modes', 'real detectors': 'A n<=4, A12 n=5, A1 n=6,7, C n=4, G12Y013 n=5 re-embedded (tiny/huge units), trace windows web0_reduced w=16 and usr0[::64] w=20; t1 in {0,0.01,0.5}; t2 in {minimum, default}'},
+BOUNDS = {'quick': {'scripted': 'all answer sequences for n<=9, t2 in 0..4, 3 gate modes', 'real detectors': 'A n<=4, A12 n=5, A1 n=6,7, C n=4, G12Y013 n=5 re-embedded (tiny/huge units), trace windows web0_reduced w=16 and usr0[::64] w=20; t1 in {0,0.01,0.5,1.5}; t2 in {minimum, default}'},
           'thorough': {'scripted': 'all answer sequences for n<=11 (t2=0), n<=12 (t2>=1)', 'real detectors': 'A n<=5, G12Y013 n=6, A1 n=7,8, C n=5'}}
 TECHNIQUE = 'stateless choice-point exploration of the multi-knee wrapper with a scripted detector (all answer sequences) plus bounded-exhaustive differential self-similarity on the real detectors'
 LEVEL_TEXT = ('Model checking: (1) every answer sequence of an arbitrary contract-honouring detector up to n=9 (12 thorough) against the reference recursion - this covers the '
@@ -133,7 +133,7 @@ DETS = {
     'lmethod': (lmethod.multi_knee, lmethod.knee, 3, 4, 1),
     'kneedle': (kneedle.multi_knee, kneedle.knee, 2, 3, 1),
 }
-T1S = (0.0, 0.01, 0.5)
+T1S = (0.0, 0.01, 0.5, 1.5)
 
 
 def check_real(det, xs, ys, t1, t2):
